@@ -25,10 +25,22 @@ def construction_history(rnd, label):
     return "\n".join(L) + "\n"
 
 
+def arbitrary_order(rnd, label):
+    """every point of a hierarchy-complete target set delivered in a shuffled order, mostly one sample per call:
+    children may arrive before their parents (local polynomial and wavelet grids; sequence and global for comparison)"""
+    fam = rnd.choice(["localp", "localp", "localp", "wavelet", "sequence", "global"])
+    line, info = gl.make_line(rnd, fam, d=rnd.choice([1, 2, 2, 3]), limits=[])
+    L = ["SCEN " + label, line, "begin", gl.cand_line(rnd, info).split(" 0")[0] if False else ("candl -1 -1 classic 0" if fam in ("localp", "wavelet") else "cand level 0 0 0")]
+    L.append("loadpool 1 0 %d %d" % (rnd.randint(1, 10 ** 6), rnd.choice([1, 1, 1, 2, 50])))
+    L.append("finish")
+    return "\n".join(L) + "\n"
+
+
 def run(ctx):
     rnd = random.Random(ctx.seed + 909)
     n = 220 if ctx.quick else 5000
     scens = [construction_history(rnd, "k%d" % i) for i in range(n)]
+    scens += [arbitrary_order(rnd, "a%d" % i) for i in range(n // 3)]
     gen = gl.mc_and_scripts(ctx, ['seq', 'localp1', 'localp2', 'localpb', 'wavelet', 'globalcc', 'fourier'], rnd, 200 if ctx.quick else 4000, maxlen=None if ctx.quick else 5, genlen=3 if ctx.quick else 4, mc=True)
     gl.run_grid(ctx, gen + [("construct", scens)], gl.OBS_NODAL, "C09")
     ctx.assume("the spec promotes the largest admissible subset of all delivered samples after every delivery; since it is a function of the delivered set only, acceptance of every order/batching implies order independence")
